@@ -69,12 +69,57 @@ class Py(CodeWriter):
         self.drop('cppclass definition')
 
     def visit_CEnumDefNode(self, node):
-        self.drop('enum definition')
+        # anonymous / named enums: keep the constants as assignments
+        self.drop('enum definition -> constant assignments')
+        nxt = None
+        for it in node.items:
+            self.startline(it.name + ' = ')
+            if it.value is not None:
+                self.visit(it.value)
+            else:
+                self.put('0' if nxt is None else '(%s + 1)' % nxt)
+            self.endline()
+            nxt = it.name
 
     def visit_CVarDefNode(self, node):
         # keep initialisers: cdef int x = 3  ->  x = 3
         any_init = False
+        bt = node.base_type
+        if isinstance(bt, Nodes.TemplatedTypeNode) and self.scope and \
+                not self.scope[-1][:1].isupper():
+            # `cdef double [n]e`, `cdef double [3][3]K`: local C arrays
+            dims = []
+            b = bt
+            while isinstance(b, Nodes.TemplatedTypeNode):
+                dims = list(b.positional_args) + dims
+                b = b.base_type_node
+            if dims and not any(isinstance(x, ExprNodes.SliceNode)
+                                for x in dims):
+                for d in node.declarators:
+                    if isinstance(d, Nodes.CNameDeclaratorNode) and \
+                            d.default is None:
+                        self.startline(d.name + ' = c_array(')
+                        self.comma_separated_list(dims)
+                        self.endline(')')
+                        self.drop('local C array -> c_array(dims)')
+                return
         for d in node.declarators:
+            if isinstance(d, Nodes.CArrayDeclaratorNode):
+                # cdef double[n] e  /  double e[3][3]: a local C array ->
+                # e = c_array(dims...)  (uninitialised cells)
+                dims = []
+                b = d
+                while isinstance(b, Nodes.CArrayDeclaratorNode):
+                    dims.append(b.dimension)
+                    b = b.base
+                if isinstance(b, Nodes.CNameDeclaratorNode) and b.name and \
+                        all(x is not None for x in dims) and self.scope and \
+                        not self.scope[-1][:1].isupper():
+                    self.startline(b.name + ' = c_array(')
+                    self.comma_separated_list(list(reversed(dims)))
+                    self.endline(')')
+                    self.drop('local C array -> c_array(dims)')
+                    continue
             base = d
             while hasattr(base, 'base') and not isinstance(
                     base, Nodes.CNameDeclaratorNode):
